@@ -271,6 +271,41 @@ func checkC13(c *Ctx, r *Report) error {
 			return err
 		}
 	}
+	replay := c.Replay != ""
+	if replay {
+		// re-run only the inputs recorded in a replay file
+		var rp struct {
+			Failing []struct {
+				Input struct {
+					Triangles [][3][3]string `json:"triangles"`
+					File      *string        `json:"file"`
+				} `json:"input"`
+			} `json:"failing_inputs"`
+		}
+		b, err := os.ReadFile(c.Replay)
+		if err != nil {
+			return err
+		}
+		if err := json.Unmarshal(b, &rp); err != nil {
+			return err
+		}
+		corpus = c13Corpus{}
+		for _, f := range rp.Failing {
+			if f.Input.File != nil {
+				corpus.Ascii = append(corpus.Ascii, *f.Input.File)
+			} else if f.Input.Triangles != nil {
+				ts := make([]tri, len(f.Input.Triangles))
+				for i, t := range f.Input.Triangles {
+					for a := range t {
+						for b := range t[a] {
+							ts[i][a][b], _ = strconv.ParseFloat(t[a][b], 64)
+						}
+					}
+				}
+				corpus.Lists = append(corpus.Lists, ts)
+			}
+		}
+	}
 	imports := "From Coq Require String.\nFrom Coq Require Import Uint63.\nFrom Sdfx Require Import Io.F32 Io.Stl Io.StlLoad.\nImport String.StringSyntax.\nOpen Scope N_scope."
 	conv := &Cases{Kind: "conv", Imports: imports, Type: "Stl.conv_case", Fn: "Stl.conv_mismatches", PerShard: 2500}
 	stl := &Cases{Kind: "stl", Imports: imports, Type: "Stl.case", Fn: "Stl.mismatches", InfoFn: "Stl.inexact", PerShard: 1}
@@ -279,6 +314,9 @@ func checkC13(c *Ctx, r *Report) error {
 
 	// ---- conversions alone
 	nconv := TierN(c.Tier, 12000, 60000, 24000)
+	if replay {
+		nconv = 0
+	}
 	for k := 0; k < nconv; k++ {
 		s := coordStrata[k%len(coordStrata)]
 		x := coord(rng, s)
@@ -386,7 +424,7 @@ func checkC13(c *Ctx, r *Report) error {
 	// lengths: empty, tiny, around the Triangle3Buffer batch (256) and bufio (4096 bytes = 81.9 records) sizes, large
 	fixed := []int{0, 1, 2, 3, 80, 81, 82, 255, 256, 257}
 	nsmall := TierN(c.Tier, 500, 4000, 1200)
-	big := []int{TierN(c.Tier, 3000, 5000, 3500)}
+	big := []int{TierN(c.Tier, 2000, 5000, 3500)}
 	if c.Tier == "thorough" {
 		big = append(big, 4097, 7000)
 	}
@@ -398,6 +436,9 @@ func checkC13(c *Ctx, r *Report) error {
 			ts[i], _ = genTriangle(rng, k)
 		}
 		return ts
+	}
+	if replay {
+		fixed, nsmall, big = nil, 0, nil
 	}
 	for _, n := range fixed {
 		if err := listCase(fmt.Sprintf("len=%d", n), gen(n)); err != nil {
@@ -414,7 +455,7 @@ func checkC13(c *Ctx, r *Report) error {
 		}
 	}
 	// one triangle per stratum of triangles, so that each kind is reported separately
-	for i := 0; i < TierN(c.Tier, 300, 2000, 600); i++ {
+	for i := 0; i < TierN(c.Tier, 300, 2000, 600) && !replay; i++ {
 		k++
 		t, s := genTriangle(rng, k)
 		if err := listCase("single/"+s, []tri{t}); err != nil {
@@ -492,6 +533,9 @@ func checkC13(c *Ctx, r *Report) error {
 		}
 	}
 	nasc := TierN(c.Tier, 400, 3000, 800)
+	if replay {
+		nasc = 0
+	}
 	for i := 0; i < nasc; i++ {
 		n := rng.Range(0, 4)
 		if i%12 == 0 {
@@ -510,7 +554,7 @@ func checkC13(c *Ctx, r *Report) error {
 		return err
 	}
 
-	r.Rule = "conversion cases: one float64 per case from 11 strata (exact float32 values, midpoints of adjacent float32 incl. subnormal / carry / overflow-threshold ties and their float64 neighbours, subnormal and underflow range, beyond MaxFloat32, any exponent, signed zeros); distinct by bit pattern. list cases: triangle lists of length 0..large (quick 3000, thorough 7000) whose triangles come from the same coordinate strata, ordinary geometry, degenerate and axis-aligned triangles; written with SaveSTL and with ToSTL through a scripted Render3 that delivers random batches; non-trivial = at least one triangle, distinct by the bit patterns of all coordinates. ascii cases: listings of 0..40 triangles written in several number formats / indentation / line-ending styles; distinct by file content."
+	r.Rule = "conversion cases: one float64 per case from 11 strata (exact float32 values, midpoints of adjacent float32 incl. subnormal / carry / overflow-threshold ties and their float64 neighbours, subnormal and underflow range, beyond MaxFloat32, any exponent, signed zeros); distinct by bit pattern. list cases: triangle lists of length 0..large (quick 2000, thorough 7000) whose triangles come from the same coordinate strata, ordinary geometry, degenerate and axis-aligned triangles; written with SaveSTL and with ToSTL through a scripted Render3 that delivers random batches; non-trivial = at least one triangle, distinct by the bit patterns of all coordinates. ascii cases: listings of 0..40 triangles written in several number formats / indentation / line-ending styles; distinct by file content."
 	r.Trusted = append(r.Trusted,
 		"hand models coq/Io/F32.v, Io/Stl.v, Io/StlLoad.v tied to render/stl.go by differential execution inside coqc: bytes of SaveSTL and ToSTL vs Stl.save_f / Stl.stream_save_f (every byte identical, header text ignored; Normal words within 4 float32 ulp), LoadSTL vs Stl.decode, float32 conversions vs F32.narrow32/widen32 bit for bit",
 		"harness oracles: math/big rounding to float32, 300-bit exact normal, os file IO",
